@@ -24,7 +24,7 @@ PROC_TIMEOUT = 900
 #   paused), dup (repeated completions), ooo (queued requests completed out of submission order), bad
 #   (responses whose data is not the concatenation of what the mock answered for that very request), lost
 #   (requests never completed), rj (queue-full expectation mismatches), dv (discovery runs whose full flag
-#   is not the OR of the requests they served + discovery callbacks run twice; the model side prints 0).
+#   is not the OR of the requests they served + discovery callbacks run twice).
 
 
 def gen_consts(v):
@@ -54,17 +54,20 @@ TRUSTED = ['modelled rather than verified: QueueingRDMController.cpp (all method
            "mock's and the callbacks' own observations"]
 LEVEL_TEXT = ('Coq theorems over an executable small-step model (explicit call-stack agenda, scripted re-entrant '
               'callbacks, synchronous/deferred answers of the underlying controller) of both queueing controllers, '
-              'for every history: the run always reaches quiescence (no OutOfFuel); every submitted request completes '
-              'exactly once, queued requests complete in submission order, non-answer completions (queue full, '
-              'destruction) carry FAILED_TO_SEND; nothing reaches the underlying controller while paused.  PARTIAL: '
-              'the clauses "at most one outstanding", "own reply / ACK_OVERFLOW concatenation" and "discovery '
-              'coalescing" are modelled and checked on every run by instance checkers and by the differential '
-              'correspondence (after every operation, ASan/UBSan build of the working tree) but are not proved in Coq.')
+              'proved by invariants for every configuration reachable by any history: the run always reaches '
+              'quiescence (no OutOfFuel, OLA_FATAL branch unreachable); every submitted request completes exactly '
+              'once, queued requests in submission order, rejected exactly when the queue is full, non-answer '
+              'completions carry FAILED_TO_SEND, answered ones are built only from answers to dispatches of that '
+              'request; at most one request or discovery is outstanding at every instant; nothing is sent while '
+              'paused; an ACK_OVERFLOW chain is delivered as the in-order concatenation (<= 4096 bytes) or one error; '
+              'each discovery request is taken by exactly one run, a run takes all waiting requests and is full iff '
+              'one asked for full, callbacks run at most once and by the run that took them.  The model is tied to the '
+              'C++ by a differential correspondence check after every operation (ASan/UBSan build of the working tree).')
 LEVEL_NOTE = ('Trusted: Coq kernel, extraction (ExtrOcamlBasic), OCaml/C++ glue, generator coverage of the '
               'correspondence; model = code is validated by differential testing, not proved.  Destruction is '
-              'modelled only as the last operation of a history and with inert callbacks.  The verdict keys '
-              'conc/ps/dup/ooo/bad/lost/rj are computed independently by the C++ harness; for conc and bad the model '
-              'side value is computed, not proved constant.')
+              'modelled only as the last operation of a history and with inert callbacks.  Discovery theorems are '
+              'safety statements (which run serves which request), not liveness.  The verdict keys '
+              'conc/ps/dup/ooo/bad/lost/rj/dv are computed independently by the C++ harness and by the extracted model.')
 TECHNIQUE = 'Coq invariant proofs on a hand-written executable state-machine model + extracted-model/implementation differential correspondence'
 DESIGN_REF = 'DESIGN.md §4 C12'
 
